@@ -286,8 +286,26 @@ def container_kinds(cx):
     return kinds
 
 
+def key_names(cx, fn):
+    """(channel-key variable, event-key variable, assembled-key variable) of __getitem__/__setitem__."""
+    kc = None
+    for st in fn.stmts(ast.Assign):
+        if isinstance(st.targets[0], ast.Name) and isinstance(st.value, ast.Call) and dotted(st.value.func) == 'self._name_to_index' \
+                and len(st.value.args) == 1 and dotted(st.value.args[0]) == st.targets[0].id:
+            kc = st.targets[0].id
+    cx.need(kc, '%s: no `<key> = self._name_to_index(<key>)`' % fn.qual)
+    ke = ka = None
+    for st in fn.stmts(ast.Assign):
+        if isinstance(st.targets[0], ast.Name) and isinstance(st.value, ast.Tuple) and len(st.value.elts) == 2 \
+                and dotted(st.value.elts[1]) == kc and isinstance(st.value.elts[0], ast.Name):
+            ka, ke = st.targets[0].id, st.value.elts[0].id
+    cx.need(ka and ke, '%s: no `<key_all> = (<event key>, %s)`' % (fn.qual, kc))
+    return kc, ke, ka
+
+
 def getitem_branches(cx, rule='GETITEM'):
     fn = Fn(cx, 'io.FCSData.__getitem__')
+    KC, KE, KA = key_names(cx, fn)
     Ac = per_channel_attrs(cx)
     kinds = container_kinds(cx)
     cx.tables['per-channel attributes'] = sorted(Ac)
@@ -324,7 +342,7 @@ def getitem_branches(cx, rule='GETITEM'):
             nstores += 1
             cont = kinds.get(a) or 'tuple'
             v = sym.norm(s.value)
-            kc = 'key_channel'
+            kc = KC
             cand = {
                 'iter': sym.norm(('tuple([B.A[kc] for kc in K])' if cont == 'tuple' else '[B.A[kc] for kc in K]')
                                  .replace('B', base).replace('.A[', '.%s[' % a).replace('K', kc)),
@@ -342,7 +360,7 @@ def getitem_branches(cx, rule='GETITEM'):
         seen_forms.add(forms)
         # the branch condition matches the form
         ifn = grp['if']
-        want = {'iter': "hasattr(key_channel, '__iter__')", 'slice': 'isinstance(key_channel, slice)'}
+        want = {'iter': "hasattr(%s, '__iter__')" % KC, 'slice': 'isinstance(%s, slice)' % KC}
         if forms in want and key[1] == 'body':
             okc = sym.norm(ifn.test) == sym.norm(want[forms])
             fn.ob(rule, 'the %s branch is entered exactly for that kind of channel key' % forms, okc, ifn,
@@ -355,22 +373,22 @@ def getitem_branches(cx, rule='GETITEM'):
     base = list(stores.values())[0]['items'][0].targets[0].value.id
     defs = [d for d in fn.cfg.nodes if base in fn.rd.gen[d.id]]
     vals = [sym.norm(fn.rd.assigned_value(d, base)) for d in defs if fn.rd.assigned_value(d, base) is not None]
-    want = sym.norm('np.ndarray.__getitem__(self, key_all)')
+    want = sym.norm('np.ndarray.__getitem__(self, %s)' % KA)
     ok = want in vals
     fn.ob(rule, 'values come from NumPy\'s own indexing with the translated key', ok, defs[0].ast if defs else fn.ast, key='numpy-call')
-    ka = [sym.norm(v) for d, v in fn.reaching_values('key_all', defs[0].ast) if v is not None] if defs else []
-    ok = ka == [sym.norm('(key_event, key_channel)')]
+    ka = [sym.norm(v) for d, v in fn.reaching_values(KA, defs[0].ast) if v is not None] if defs else []
+    ok = ka == [sym.norm('(%s, %s)' % (KE, KC))]
     fn.ob(rule, 'the translated key is (event key unchanged, translated channel key)', ok, fn.ast, key='key-all')
-    ke = [sym.norm(v) for d, v in fn.reaching_values('key_event', defs[0].ast) if v is not None] if defs else []
+    ke = [sym.norm(v) for d, v in fn.reaching_values(KE, defs[0].ast) if v is not None] if defs else []
     ok = ke == [sym.norm('%s[0]' % fn.params[1])]
     fn.ob(rule, 'the event key is passed through unchanged', ok, fn.ast, key='key-event')
     # translation of the channel key: untouched for a slice, _name_to_index otherwise
-    kcd = fn.reaching_values('key_channel', defs[0].ast) if defs else []
+    kcd = fn.reaching_values(KC, defs[0].ast) if defs else []
     vals = sorted(sym.show(sym.norm(v)) for d, v in kcd if v is not None)
-    want = sorted([sym.show(sym.norm('%s[1]' % fn.params[1])), sym.show(sym.norm('self._name_to_index(key_channel)'))])
+    want = sorted([sym.show(sym.norm('%s[1]' % fn.params[1])), sym.show(sym.norm('self._name_to_index(%s)' % KC))])
     ok = vals == want
     fn.ob(rule, 'the channel key is translated by _name_to_index unless it is a slice', ok, fn.ast, detail=str(vals), key='key-channel')
-    tr = [st for st in fn.stmts(ast.If) if sym.norm(st.test) == sym.norm('not isinstance(key_channel, slice)')]
+    tr = [st for st in fn.stmts(ast.If) if sym.norm(st.test) == sym.norm('not isinstance(%s, slice)' % KC)]
     ok = len(tr) == 1 and len(tr[0].body) == 1 and not tr[0].orelse
     fn.ob(rule, 'only a slice escapes translation', ok, tr[0] if tr else fn.ast, key='slice-escape')
     # scalar early return precedes every attribute store
